@@ -31,6 +31,7 @@ EXTENDS Naturals, Integers, Sequences, FiniteSets, TLC
 CONSTANTS G,          \* sequence of coroutine ids (strings), e.g. <<"g1","g2","g3">>
           Script,     \* [id -> sequence of steps <<op, n>>]
           Dts,        \* dt values offered to Process (quarter units)
+          WithKill,   \* BOOLEAN: include the top-level Kill action (C08 instances explore timing only)
           MaxTimer,   \* guard: frames are not generated once the shared timer would pass this
           StartCancelsPendingKill
 
@@ -98,7 +99,9 @@ StepGen(s, g) ==
     THEN \* StopIteration: the promise gets the value (None, here 0, for an already exhausted generator)
          LET v == IF s.pc[g] = Len(sc) + 1 THEN RetVal(g) ELSE 0 IN
          [s EXCEPT !.aq = Tail(@), !.gens[g] = "none", !.pval[g] = v, !.prom[g] = "none", !.st[g] = "TERMINATED",
-                   !.pc[g] = Len(sc) + 2, !.log = Append(@, <<g, s.pc[g], "return">>)]
+                   !.pc[g] = Len(sc) + 2,
+                   \* an exhausted generator raises StopIteration at once: no body code runs ("exhausted" is a ghost entry)
+                   !.log = Append(@, <<g, s.pc[g], IF s.pc[g] = Len(sc) + 1 THEN "return" ELSE "exhausted">>)]
     ELSE LET step == sc[s.pc[g]]
              r == IF step[1] = "kill" THEN KillOp(s, G[step[2]])
                   ELSE IF step[1] = "start" THEN StartOp(s, G[step[2]])
@@ -123,7 +126,8 @@ Sorted(f) == \A i, j \in 1..Len(f) : i < j => f[i][1] <= f[j][1]
 
 Start(g) == /\ LET r == StartOp(Cur, g) IN Commit(r[1]) /\ ret' = r[2]
             /\ UNCHANGED lastDt
-Kill(g) ==  /\ LET r == KillOp(Cur, g) IN Commit(r[1]) /\ ret' = r[2]
+Kill(g) ==  /\ WithKill
+            /\ LET r == KillOp(Cur, g) IN Commit(r[1]) /\ ret' = r[2]
             /\ UNCHANGED lastDt
 
 Process(dt) ==
